@@ -547,6 +547,8 @@ class C07Pretty(Harness):
     def instances(self, tier):
         yield "pretty-width", dict(kind="width")
         yield "pretty-binning", dict(kind="binning")
+        yield "exponential-data", dict(kind="exponential", range=False)
+        yield "exponential-range", dict(kind="exponential", range=True)
         for m in ("sqrt", "sturges", "rice", "default"):
             yield f"bincount-{m}", dict(kind="bincount", method=m)
 
@@ -556,6 +558,11 @@ class C07Pretty(Harness):
             if cx.sym:
                 cx.assume(x["raw"] >= 0.011, x["raw"] <= 900)
                 _no_ties(cx, cx.t(x["raw"]))
+            return x
+        if p["kind"] == "exponential":
+            x = {"lo": cx.real("lo"), "hi": cx.real("hi")}
+            if cx.sym:
+                cx.assume(x["lo"] >= 0.001, x["hi"] <= 1000, cx.t(x["hi"]) > cx.t(x["lo"]) * 2)
             return x
         if p["kind"] == "binning":
             x = {"lo": cx.real("lo"), "hi": cx.real("hi")}
@@ -572,6 +579,10 @@ class C07Pretty(Harness):
         if p["kind"] == "width":
             r = E.attempt(BU.find_pretty_width, x["raw"])
             return {"res": {"raised": r}} if isinstance(r, Raised) else {"res": r}
+        if p["kind"] == "exponential":
+            data = np.asarray([x["lo"], x["hi"]], dtype=float)
+            r = E.attempt(B.exponential_binning, None, 2, range=(x["lo"], x["hi"])) if p["range"] else E.attempt(B.exponential_binning, data, 2)
+            return {"res": {"raised": r}} if isinstance(r, Raised) else {"res": _info(E, r)}
         if p["kind"] == "binning":
             data = np.asarray([x["lo"], x["hi"]], dtype=float)
             r = E.attempt(B.pretty_binning, data, 4)
@@ -602,6 +613,17 @@ class C07Pretty(Harness):
             mb = z3.If(b >= raw, b / raw, raw / b)
             return ma <= mb * (1 + z3.Q(1, 10**9))
 
+        if p["kind"] == "exponential":
+            lo, hi = cx.t(x["lo"]), cx.t(x["hi"])
+            bins = res["bins"]
+            yield "class_exponential", res["cls"] == "ExponentialBinning" and len(bins) == 2 and res["right"] is True
+            if len(bins) != 2:
+                return
+            e0, e1, e2 = cx.t(bins[0][0]), cx.t(bins[0][1]), cx.t(bins[1][1])
+            yield "covers_range", z3.And(e0 == lo, e2 == hi)
+            yield "consecutive_rising", z3.And(cx.t(bins[1][0]) == e1, e0 < e1, e1 < e2)
+            yield "geometric_sequence", e1 * e1 == e0 * e2
+            return
         if p["kind"] == "width":
             raw = cx.t(x["raw"])
             w = cx.t(res)
